@@ -180,7 +180,26 @@ def check_text(text, tag='path'):
         return [('C17|%s|well-formed|print differs' % tag, 'X12Path(%r).format() = %r' % (text, out))], 'well|print', p, cl
     if eq is not True or ne is not False:
         return [('C17|%s|well-formed|re-parse unequal' % tag, 'X12Path(%r).format() = %r parses to %r, not equal to %r' % (text, out, fields(q), got))], 'well|reparse', p, cl
+    # equality is a property of the parts: it must not depend on what one of the two objects has been used for before
+    # (hashed - as NodeCounter and sets do -, printed, shown, tested for emptiness), nor on the side it stands on
+    for uname, use in USES:
+        try:
+            a = pyx12.path.X12Path(text); b = pyx12.path.X12Path(out)
+            use(a)
+            r = (a == b, b == a, a != b, b != a)
+            use(b)
+            same_hash = hash(a) == hash(b)
+            member = a in {b}
+        except Exception as e:
+            return [('C17|%s|well-formed|use %s raises %s@%s' % (tag, uname, type(e).__name__, core.where(e)), 'X12Path(%r) after %s raised %r' % (text, uname, e))], 'well|exc', p, cl
+        if r != (True, True, False, False) or not same_hash or not member:
+            return [('C17|%s|well-formed|equality depends on earlier use (%s)' % (tag, uname),
+                     'a = X12Path(%r), b = X12Path(%r); after %s(a): a==b %r, b==a %r, a!=b %r, b!=a %r; after %s(b): equal hashes %r, a in {b} %r'
+                     % (text, out, uname, r[0], r[1], r[2], r[3], uname, same_hash, member))], 'well|use', p, cl
     return [], 'well|%s|%s' % (fl, 'ok' if canonical else 'ok-padded-component'), p, cl
+
+
+USES = [('hash', hash), ('format', lambda x: x.format()), ('repr', repr), ('empty', lambda x: x.empty())]
 
 
 def check_pair(t1, t2):
